@@ -34,7 +34,7 @@ ENC_URIS = {"wamp.error.encryption.trusted_uri_mismatch", "wamp.error.encryption
 
 
 def plan(tier, seed):
-    n = 120 if tier == "quick" else 800
+    n = 120 if tier == "quick" else 1500
     jobs = []
     for i, fw in enumerate(("twisted", "asyncio")):
         for sh in range(3 if tier == "quick" else 8):
@@ -134,6 +134,10 @@ class Pair:
             raise Violation("C20|%s|clear-marker-on-the-wire" % what, "serialized message contains the clear marker", c)
 
 
+class _CallFailedExplicitly(Exception):
+    pass
+
+
 def tampered_variants(payload, xor, n_xors):
     out = []
     for i in range(len(payload)):
@@ -145,6 +149,27 @@ def tampered_variants(payload, xor, n_xors):
             out.append(("truncate@%d" % cut, payload[:cut]))
     out.append(("append", payload + b"\x00"))
     return out
+
+
+def progressive_part(feed_progress, enc, chunk_args, chunk_kw, prog, p, c, n_xors):
+    n_t = 0
+    got = feed_progress(enc.payload, "genuine")
+    if len(got) != 1 or norm(list(got[0][0])) != norm(chunk_args) or norm(got[0][1]) != norm(chunk_kw):
+        raise Violation("C20|progress|payload-not-recovered", "on_progress saw %r" % (brief(got),), c)
+    for name, bad in tampered_variants(enc.payload, c["xor"], n_xors)[::2]:
+        got = feed_progress(bad, name)
+        n_t += 1
+        if got:
+            raise Violation("C20|progress|tampered-ciphertext-delivered", "%s: on_progress invoked with %r" % (name, brief(got)), c)
+    other = p.kr.encode(False, "com.myapp.proc2", ["chunk of another call"], {"x": 1})
+    got = feed_progress(other.payload, "swapped-uri")
+    if got:
+        raise Violation("C20|progress|envelope-uri-mismatch-delivered", "a progressive result encrypted for proc2 reached on_progress of a call to proc1: %r" % (brief(got),), c)
+    foreign, _ = keyrings("default")
+    got = feed_progress(foreign.encode(False, "com.myapp.proc1", ["forged"], None).payload, "foreign-key")
+    if got:
+        raise Violation("C20|progress|wrong-key-delivered", "a progressive result under a foreign key reached on_progress: %r" % (brief(got),), c)
+    return n_t
 
 
 def check_flow(c, n_xors=1):
@@ -324,24 +349,15 @@ def check_flow(c, n_xors=1):
                         if err is not None:
                             raise Violation("C20|progress|onMessage-raised|" + exc_key(err), "%s: %r" % (what, err), c)
                         if tr_call.n:
+                            # failing the whole call with an explicit encryption error on a forged chunk is a legitimate reaction; anything else is not
+                            if what != "genuine" and not tr_call.ok and isinstance(tr_call.value, ApplicationError) and tr_call.value.error in ENC_URIS and not prog[n0:]:
+                                raise _CallFailedExplicitly()
                             raise Violation("C20|progress|progressive-result-completed-the-call", what, c)
                         return prog[n0:]
-                    got = feed_progress(enc.payload, "genuine")
-                    if len(got) != 1 or norm(list(got[0][0])) != norm(chunk_args) or norm(got[0][1]) != norm(chunk_kw):
-                        raise Violation("C20|progress|payload-not-recovered", "on_progress saw %r" % (brief(got),), c)
-                    for name, bad in tampered_variants(enc.payload, c["xor"], n_xors)[::2]:
-                        got = feed_progress(bad, name)
-                        stats["tampered"] += 1
-                        if got:
-                            raise Violation("C20|progress|tampered-ciphertext-delivered", "%s: on_progress invoked with %r" % (name, brief(got)), c)
-                    other = p.kr.encode(False, "com.myapp.proc2", ["chunk of another call"], {"x": 1})
-                    got = feed_progress(other.payload, "swapped-uri")
-                    if got:
-                        raise Violation("C20|progress|envelope-uri-mismatch-delivered", "a progressive result encrypted for proc2 reached on_progress of a call to proc1: %r" % (brief(got),), c)
-                    foreign, _ = keyrings("default")
-                    got = feed_progress(foreign.encode(False, "com.myapp.proc1", ["forged"], None).payload, "foreign-key")
-                    if got:
-                        raise Violation("C20|progress|wrong-key-delivered", "a progressive result under a foreign key reached on_progress: %r" % (brief(got),), c)
+                    try:
+                        stats["tampered"] += progressive_part(feed_progress, enc, chunk_args, chunk_kw, prog, p, c, n_xors)
+                    except _CallFailedExplicitly:
+                        return stats
                 err = o.feed(M.Result(call.request, payload=reply.payload, enc_algo=reply.enc_algo, enc_key=reply.enc_key, enc_serializer=reply.enc_serializer))
                 if err is not None:
                     raise Violation("C20|result|onMessage-raised|" + exc_key(err), repr(err), c)
